@@ -571,13 +571,13 @@ fn sched_cases(tier: Tier) -> Vec<SchedCase> {
 }
 
 pub fn property(tier: Tier) -> Property {
-    let depth = tier.q(5, 6);
+    let depth = tier.q(5, 7);
     let first_menu = menu(&[], 0);
     let hcases: Vec<HistCase> = first_menu.into_iter().map(|first| HistCase { depth, first }).collect();
     let hist = Section::new(
         "histories",
         Config::default(),
-        "cases: every operation sequence of depth 5 (thorough 6) over {set(service in {'', a}, status in 3), clear(service), check(service or a never-set name), watch(service) (<= 2 watches), next(w) = one non-blocking poll of a live watch, drop(w)} (choices cost nothing; one case per first operation), driven through the generated HealthClient wired in-process to health_reporter()'s HealthServer with no runtime; RefHealth is stepped in lock-step on every operation: check == latest (NOT_FOUND when unset/cleared/never set); a watch's reports form an order-preserving subsequence of the statuses set for its registration from the subscription on, Pending only when nothing is unreported (or the latest status equals the one reported last) and the service is still registered, end only after a clear and after the unreported latest status; never a status that was not set; every watch is polled with its own counting waker and a watcher whose last poll was Pending must have been woken by the next update/clear of its registration (no lost wake-up). Non-trivial = the sequence polls a watch and contains an update or clear.",
+        "cases: every operation sequence of depth 5 (thorough 7) over {set(service in {'', a}, status in 3), clear(service), check(service or a never-set name), watch(service) (<= 2 watches), next(w) = one non-blocking poll of a live watch, drop(w)} (choices cost nothing; one case per first operation), driven through the generated HealthClient wired in-process to health_reporter()'s HealthServer with no runtime; RefHealth is stepped in lock-step on every operation: check == latest (NOT_FOUND when unset/cleared/never set); a watch's reports form an order-preserving subsequence of the statuses set for its registration from the subscription on, Pending only when nothing is unreported (or the latest status equals the one reported last) and the service is still registered, end only after a clear and after the unreported latest status; never a status that was not set; every watch is polled with its own counting waker and a watcher whose last poll was Pending must have been woken by the next update/clear of its registration (no lost wake-up). Non-trivial = the sequence polls a watch and contains an update or clear.",
         hcases,
         |c: &HistCase| format!("depth={} first={:?}", c.depth, c.first),
         hist_body,
